@@ -233,6 +233,18 @@ def specChild (env : Env) (w : Want) (sender loc dom : Bytes) : List Ev × Outco
       if id.uid = 0 then (pre ++ drop, .exit QLX_ROOT)
       else (pre ++ drop ++ [.execv localPath (specArgv env id loc dom sender)], .exec)
 
+/-- the calls that bear on the identity of the delivery: everything except the stdin/stdout/stderr plumbing (whose order is
+    property-neutral; it is compared with the model on the DISAGREE channel only) -/
+def idEvent : Ev → Bool
+  | .fdmove _ => false
+  | .fdcopy _ => false
+  | _ => true
+
+/-- the oracle form of `C11_identity`: the identity-relevant calls, in order, and the outcome are exactly those of `specChild` -/
+def childAsDictated (env : Env) (w : Want) (sender loc dom : Bytes) (evs : List Ev) (out : Outcome) : Bool :=
+  let s := specChild env w sender loc dom
+  decide (evs.filter idEvent = s.1.filter idEvent) && decide (out = s.2)
+
 /-! ## the trace predicate: drop privileges in order, never root -/
 
 def isExecLocal : Ev → Bool
